@@ -13,7 +13,7 @@ for d in sorted(os.listdir(os.path.join(V, "seeded"))):
     if len(summ) > 170:
         summ = summ[:167] + "..."
     ran = ", ".join(f"{c}:{'caught' if x['exit'] != 0 and x['violations'] else 'missed'}" for c, x in v.get("checks", {}).items())
-    rows.append(f"| {d} | {summ} | {'yes' if v.get('tests_pass') else 'NO'} | {ran} | {m.get('strengthened', '')} |")
+    rows.append(f"| {d} | {summ} | {'yes' if v.get('tests_pass') else 'NO'} | {ran} | {m.get('strengthened', '') or m.get('not_caught_reason', '')} |")
 print("| seed | change | suite passes | checks run | note |")
 print("|---|---|---|---|---|")
 print("\n".join(rows))
